@@ -485,6 +485,8 @@ pub fn apply(w: &World, st: &mut St, op: Op) -> bool {
                     let mw = MintWitness::new_plutus_script(&PlutusScriptSource::new(&w.plutus[1]), &red);
                     (st.mint.add_asset(&mw, &w.names[0], &Int::new_i32(1)), vec![((1, 0), 1)])
                 }
+                // burns exactly what Mint(0) mints: together they net to zero
+                5 => (st.mint.add_asset(&native, &w.names[1], &Int::new_i32(-10)), vec![((0, 1), -10)]),
                 4 => {
                     // a second Plutus policy (script 0)
                     let red = redeemer_for(RedeemerTag::new_mint(), 401);
@@ -503,10 +505,8 @@ pub fn apply(w: &World, st: &mut St, op: Op) -> bool {
             for (k, q) in entries {
                 *st.m.mint.entry(k).or_insert(0) += q;
             }
-            // an entry that nets to zero makes the mint builder unusable (build() errors): prune
-            if st.m.mint.values().any(|q| *q == 0) {
-                return false;
-            }
+            // an entry that nets to zero stays in the builder; building then refuses (or, were the
+            // entry dropped, every policy index after it would shift): the state is kept
             true
         }
         Op::Proposal(i) => {
@@ -985,7 +985,7 @@ pub fn ops_for(prop: &str) -> Vec<Op> {
         ],
         "C09" | "C10" => vec![
             Op::In(0, 0), Op::In(7, 0), Op::In(7, 1), Op::In(8, 0), Op::In(11, 0), Op::In(6, 0), Op::In(2, 0), Op::In(14, 0), Op::In(14, 2), Op::In(15, 0), Op::In(15, 1), Op::In(8, 3),
-            Op::Mint(0), Op::Mint(2), Op::Mint(4), Op::Cert(25), Op::Cert(5), Op::Cert(26), Op::Cert(16), Op::Wd(0), Op::Wd(1), Op::Wd(3), Op::Wd(5), Op::Vote(1), Op::Vote(3), Op::Vote(4), Op::Vote(5),
+            Op::Mint(0), Op::Mint(5), Op::Mint(2), Op::Mint(4), Op::Cert(25), Op::Cert(5), Op::Cert(26), Op::Cert(16), Op::Wd(0), Op::Wd(1), Op::Wd(3), Op::Wd(5), Op::Vote(1), Op::Vote(3), Op::Vote(4), Op::Vote(5),
             Op::Proposal(0), Op::Proposal(3), Op::Proposal(4),
             Op::ExtraDatum(0), Op::ExtraDatum(1), Op::ExtraDatum(3), Op::Meta, Op::Out(0),
         ],
